@@ -71,6 +71,7 @@ void zones(const Args& a, Counters& c, Mgr& full, OtherMgr& other, const char* t
   }
 }
 
+static volatile long g_sink16 = 0;
 int main(int argc, char** argv) {
   Args a = parse_args(argc, argv);
   Counters c;
@@ -142,6 +143,23 @@ int main(int argc, char** argv) {
             violation("c16:manual:restore-of-id-aliasing-pair", fmt("{\"std\":%d,\"dst\":%d,\"aliased_zone_id\":\"0x%08x\",\"restored_type\":%d}", sm, dm, id, r.getType()));
           c.add("manual_id_aliasing_restores");
         }
+      }
+    }
+    // ---- a zone handed to createForZoneInfo() that is NOT in the manager's registry must not become reachable by id
+    {
+      static const basic::ZoneInfo* const kSmallB[] = {&zonedb::kZoneAmerica_Los_Angeles, &zonedb::kZoneEurope_London};
+      static const extended::ZoneInfo* const kSmallX[] = {&zonedbx::kZoneAmerica_Los_Angeles, &zonedbx::kZoneEurope_London};
+      BasicZoneManager<2> sb(2, kSmallB); ExtendedZoneManager<2> sx(2, kSmallX);
+      for (int round = 0; round < 2; round++) {
+        TimeZone ob = sb.createForZoneInfo(&zonedb::kZoneAustralia_Darwin); g_sink16 += ob.getUtcOffset(0).toMinutes();
+        TimeZone ox = sx.createForZoneInfo(&zonedbx::kZoneAmerica_Caracas); g_sink16 += ox.getUtcOffset(0).toMinutes();
+        uint32_t idb = zonedb::kZoneAustralia_Darwin.zoneId, idx = zonedbx::kZoneAmerica_Caracas.zoneId;
+        if (!sb.createForZoneId(idb).isError() || sb.indexForZoneId(idb) != ZoneManager::kInvalidIndex || !sb.createForTimeZoneData(TimeZoneData(idb)).isError() || !sb.createForZoneName("Australia/Darwin").isError())
+          violation("c16:basic:zone-outside-registry-reachable-after-createForZoneInfo", fmt("{\"round\":%d}", round));
+        if (!sx.createForZoneId(idx).isError() || sx.indexForZoneId(idx) != ZoneManager::kInvalidIndex || !sx.createForTimeZoneData(TimeZoneData(idx)).isError() || !sx.createForZoneName("America/Caracas").isError())
+          violation("c16:extended:zone-outside-registry-reachable-after-createForZoneInfo", fmt("{\"round\":%d}", round));
+        if (sb.createForZoneId(zonedb::kZoneEurope_London.zoneId).isError() || sx.createForZoneId(zonedbx::kZoneEurope_London.zoneId).isError()) violation("c16:small-registry-present-id-not-found", "{}");
+        c.add("outside_registry_probes");
       }
     }
     // ---- error zone
